@@ -8,8 +8,10 @@
    val <rel> <cur> <thr>                                                 -> T|F
    stat <kind> <user> <internal>                                         -> <status>        (the `status` property)
    tctl <tank> <htol> <n> {<id> <kind> <cv> <startIsTank> <other>}*n     -> link,value,rel,thr,relOther|-,other|-,prio,pre ; ...
-   links <n> {<kind> <user> <internal> <setting>}*n                      -> ok      (current link state)
-   track <n> {<link> <S|V>}*n                                            -> ok      (registered tracker targets)
+   links <n> {<kind> <user> <internal> <setting> <speed>}*n              -> ok      (current link state)
+   comp <idBase> <n> {<id> <prio> <link> <kind> <status|setting|speed> <value>}*n
+                                                                         -> P link,field,value,prio ; ... | V link,field,value,prio ; ...   (companions; `error` = ValueError)
+   track <n> {<link> <S|V|P>}*n                                            -> ok      (registered tracker targets)
    post <n> {<id> <prio> <link> <field> <value>}*n                       -> <changed 0|1> | user,internal,setting ; ...
    pre <first 0|1> <simTime> <n> {<id> <prio> <link> <field> <value> <back>}*n   -> <simTime'> <changed> | links...
    rows <tank> <n> {<time> <head> <demand>}*n                            -> ok
@@ -49,10 +51,10 @@ def parseKind : String → Option Kind
   | "pipe" => some .pipe | "pump" => some .pump | "valve" => some .valve | _ => none
 
 def parseField : String → Option Field
-  | "user" => some .user | "internal" => some .internal | "setting" => some .setting | _ => none
+  | "user" => some .user | "internal" => some .internal | "setting" => some .setting | "speed" => some .speed | _ => none
 
 def parseWatch : String → Option Watch
-  | "S" => some .status | "V" => some .setting | _ => none
+  | "S" => some .status | "V" => some .setting | "P" => some .speed | _ => none
 
 structure DState where
   pi : Rat := 355 / 113
@@ -83,10 +85,10 @@ def parseTLinks : Nat → List String → Option (List TLink)
 
 def parseLinks : Nat → List String → Option Links
   | 0, [] => some []
-  | n + 1, k :: u :: i :: s :: rest => do
-    let k ← parseKind k; let u ← parseRat u; let i ← parseRat i; let s ← parseRat s
+  | n + 1, k :: u :: i :: s :: sp :: rest => do
+    let k ← parseKind k; let u ← parseRat u; let i ← parseRat i; let s ← parseRat s; let sp ← parseRat sp
     let ls ← parseLinks n rest
-    some (⟨k, u, i, s⟩ :: ls)
+    some (⟨k, u, i, s, sp⟩ :: ls)
   | _, _ => none
 
 def parseTrack : Nat → List String → Option (List (Nat × Watch))
@@ -122,7 +124,22 @@ def parseRows : Nat → List String → Option (List Row)
   | _, _ => none
 
 def showLinks (ls : Links) : String :=
-  " ; ".intercalate (ls.map fun l => s!"{showRat l.user},{showRat l.internal},{showRat l.setting}")
+  " ; ".intercalate (ls.map fun l => s!"{showRat l.user},{showRat l.internal},{showRat l.setting},{showRat l.speed}")
+
+def parseUCtls : Nat → List String → Option (List UCtl)
+  | 0, [] => some []
+  | n + 1, i :: p :: l :: k :: a :: v :: rest => do
+    let i ← i.toNat?; let p ← p.toNat?; let l ← l.toNat?; let k ← parseKind k; let v ← parseRat v
+    let a ← (match a with | "status" => some UAttr.status | "setting" => some .setting | "speed" => some .baseSpeed | _ => none)
+    let r ← parseUCtls n rest
+    some (⟨i, p, l, k, a, v⟩ :: r)
+  | _, _ => none
+
+def showField : Field → String
+  | .user => "user" | .internal => "internal" | .setting => "setting" | .speed => "speed"
+
+def showComp (cs : List Ctl) : String :=
+  " ; ".intercalate (cs.map fun c => s!"{c.act.link},{showField c.act.field},{showRat c.act.value},{c.prio}")
 
 def showTCtl (c : TCtl) : String :=
   let ro := match c.relOther with | some (r, o) => s!"{showRel r},{o}" | none => "-,-"
@@ -228,6 +245,12 @@ def handle (d : DState) (line : String) : DState × String :=
       | some ls => (d, " ; ".intercalate ((tankControls t htol ls).map showTCtl))
       | none => (d, "bad-op")
     | _, _, _ => (d, "bad-op")
+  | "comp" :: b :: n :: rest =>
+    match b.toNat?, n.toNat? >>= (parseUCtls · rest) with
+    | some b, some us =>
+      if us.any (fun u => (pumpCompanion b u).isNone || (valveCompanion b u).isNone) then (d, "error")
+      else (d, s!"P {showComp (companionsOf (pumpCompanion b) us)} | V {showComp (companionsOf (valveCompanion b) us)}")
+    | _, _ => (d, "bad-op")
   | "links" :: n :: rest =>
     match n.toNat? >>= (parseLinks · rest) with
     | some ls => ({ d with links := ls }, "ok")
